@@ -171,6 +171,74 @@ fn seq_rt<A: Sx>(pr: &Produced<A>, out: &mut Out) {
             && jb.0 == pr.seq && jb.1 == 5 && jb.2.len() == 1 && jb.2[0] == pr.seq)
     });
     out.check(r == Ok(Ok(true)), || (format!("{cn}/seq-serde/does-not-compose-in-a-stream"), format!("{} (len {}): {:?}", pr.name, pr.codes.len(), r)));
+    // deserializing INTO an existing value (Deserialize::deserialize_in_place: what serde does for the elements
+    // of a Vec read in place, and what bincode::deserialize_in_place exposes): the result must equal the original
+    // whatever the target held before - empty, the same value, a shorter / longer / multi-word one
+    out.stage = "deserialize_in_place over an existing Seq";
+    let n = pr.codes.len();
+    let targets = |which: usize| -> Seq<A> {
+        match which {
+            0 => Seq::<A>::new(),
+            1 => pr.seq.clone(),
+            2 => {
+                let mut t = pr.seq.clone();
+                t.truncate(n / 2);
+                t
+            }
+            3 => {
+                let mut t = pr.seq.clone();
+                t.push(al[al.len() - 1]);
+                t.push(al[0]);
+                t
+            }
+            4 => std::iter::repeat(al[al.len() - 1]).take(1).collect(),
+            _ => std::iter::repeat(al[al.len() - 1]).take(n + 70).collect(),
+        }
+    };
+    for which in 0..6usize {
+        for fmt in ["bincode", "json"] {
+            let r = catch(|| -> Result<bool, String> {
+                use bincode::Options;
+                let mut place = targets(which);
+                let mut vplace: Vec<Seq<A>> = vec![targets(which), targets((which + 1) % 6), targets(5)];
+                let many = vec![pr.seq.clone(), Seq::<A>::new()];
+                if fmt == "bincode" {
+                    let bytes = bincode::serialize(&pr.seq).map_err(|e| e.to_string())?;
+                    let opts = bincode::options().with_fixint_encoding().allow_trailing_bytes();
+                    let mut de = bincode::Deserializer::with_reader(&bytes[..], opts);
+                    serde::Deserialize::deserialize_in_place(&mut de, &mut place).map_err(|e| format!("in place: {e}"))?;
+                    let vb = bincode::serialize(&many).map_err(|e| e.to_string())?;
+                    let mut de = bincode::Deserializer::with_reader(&vb[..], opts);
+                    serde::Deserialize::deserialize_in_place(&mut de, &mut vplace).map_err(|e| format!("vec in place: {e}"))?;
+                } else {
+                    let txt = serde_json::to_string(&pr.seq).map_err(|e| e.to_string())?;
+                    let mut de = serde_json::Deserializer::from_str(&txt);
+                    serde::Deserialize::deserialize_in_place(&mut de, &mut place).map_err(|e| format!("in place: {e}"))?;
+                    let vt = serde_json::to_string(&many).map_err(|e| e.to_string())?;
+                    let mut de = serde_json::Deserializer::from_str(&vt);
+                    serde::Deserialize::deserialize_in_place(&mut de, &mut vplace).map_err(|e| format!("vec in place: {e}"))?;
+                }
+                let mut ok = place == pr.seq && pr.seq == place && place.len() == n;
+                ok &= rec::stream(&place).bytes == rec::stream(&pr.seq).bytes;
+                if pr.symbolic {
+                    ok &= place.to_string() == pr.seq.to_string();
+                }
+                ok &= vplace.len() == 2 && vplace[0] == pr.seq && vplace[0].len() == n && vplace[1].is_empty();
+                // and the value read in place keeps behaving like the original under one more edit
+                let mut a = pr.seq.clone();
+                a.push(al[0]);
+                place.push(al[0]);
+                ok &= a == place && rec::stream(&a).bytes == rec::stream(&place).bytes;
+                Ok(ok)
+            });
+            out.check(r == Ok(Ok(true)), || {
+                (
+                    format!("{cn}/seq-{fmt}-in-place/value-not-preserved"),
+                    format!("{} (len {n}) read in place over target form {which} (0 empty, 1 same, 2 half, 3 two longer, 4 one symbol, 5 n+70 symbols): {:?}", pr.name, r),
+                )
+            });
+        }
+    }
     out.observe(&(A::CID, pr.codes.len(), pr.codes.first().copied()));
 }
 
